@@ -1,8 +1,9 @@
-import DcVerif.Spec.Csm
+import DcVerif.Model.CsmPrim
 /-! Model of `deep_causality/src/types/csm_types/mod.rs` (CSM), mirroring the code as it is today.
 
 * `state_actions : RefCell<HashMap<usize, (&CausalState, &CausalAction)>>` is an association list with the
-  `HashMap` behaviour: `upsert` overwrites in place or appends, `remove` erases the key.
+  `HashMap` behaviour: `upsert` overwrites in place or appends, `remove` erases the key (`Model/CsmPrim.lean`, shared
+  with the definitions `tools/rs2lean_csm.py` generates from the source: `Gen/Csm.lean`).
 * `CSM::new` and `update_all_states` register every pair of the slice under **the state's own id**
   (`*state.id()`), in slice order, so a later pair with the same id overwrites an earlier one;
   `add_single_state(idx, …)` / `update_single_state(idx, …)` use the **supplied index**, whatever id the
@@ -16,23 +17,6 @@ namespace Model.Csm
 open Spec.Csm
 
 variable {σ α δ : Type}
-
-abbrev Table (σ α : Type) := List (Nat × (σ × α))
-
-/-- `HashMap::get` -/
-def lookup : Table σ α → Nat → Option (σ × α)
-  | [], _ => none
-  | (j, v) :: r, k => if j = k then some v else lookup r k
-
-/-- `HashMap::insert` -/
-def upsert : Table σ α → Nat → (σ × α) → Table σ α
-  | [], k, v => [(k, v)]
-  | (j, w) :: r, k, v => if j = k then (k, v) :: r else (j, w) :: upsert r k v
-
-/-- `HashMap::remove` -/
-def delete : Table σ α → Nat → Table σ α
-  | [], _ => []
-  | (j, w) :: r, k => if j = k then delete r k else (j, w) :: delete r k
 
 /-- `CSM::len` -/
 def len (t : Table σ α) : Nat := t.length
